@@ -485,7 +485,8 @@ Section Sketch.
     sc sm == rho * cw -> Shape Item sm -> AllP Item P sm -> P it -> cs_ok s ->
     cw' = cw + dw /\ rho' = nr /\ sc sm' == nr * (cw + dw) /\ Shape Item sm' /\ AllP Item P sm' /\ cs_ok s'.
   Proof.
-    unfold feed. qs. intros E nr Hcw Hdw Hrho Hnr Hle Hth Hth1 Hc Hsh HP Hit Hs. fold nr in E.
+    intros E nr Hcw Hdw Hrho Hnr Hle Hth Hth1 Hc Hsh HP Hit Hs.
+    unfold feed in E. qs. fold nr in E.
     destruct (if negb (Qle_bool cw 0) then downsample QOps Item (nr / rho) sm s else (sm, s)) as [sm1 s1] eqn:Ed.
     assert (D : Shape Item sm1 /\ AllP Item P sm1 /\ cs_ok s1 /\ sc sm1 == nr * cw).
     { destruct (qleb_spec cw 0) as [Hz|Hpos]; cbn [negb] in Ed.
